@@ -48,15 +48,22 @@ for _fn, _pre in (("cast_to_float", "cast_to_float"), ("convert_to_float_modular
               "bounded:2x1 %s grid, %s (every sample value)" % (_t, _bt),
               ["ImageBuffer::" + _fn, "AlignedGrid::with_alloc_tracker"],
               "Ok => the f32 copy is charged to the source's tracker (exactly its buffer size) and the source's bytes return; "
-              "Err => only on exhaustion, buffer and budget unchanged", timeout=1500, tier="thorough")
+              "Err => only on exhaustion, buffer and budget unchanged", timeout=300)
 for _h in ("float_conversion_values_i16", "float_conversion_values_i32"):
     K("ib." + _h, ["C15", "C03", "C01"], "jxl-render", _IM, _IMM, _h, "bounded:2x1 grid (every sample, every bit depth 1..=31)",
       ["ImageBuffer::cast_to_float", "ImageBuffer::convert_to_float_modular"],
-      "cast: out[i] == in[i] as f32; convert: out[i] == BitDepth::parse_integer_sample(in[i]); dimensions kept", timeout=1500, tier="thorough")
+      "cast: out[i] == in[i] as f32; convert: out[i] == BitDepth::parse_integer_sample(in[i]); dimensions kept", timeout=300)
 
-# the ImageBuffer rows need 15-30 GB in CBMC (two AlignedGrid allocations plus the enum's drop glue): thorough tier, run few at a time
+# the ImageBuffer rows stub Vec::reserve with an asserted-unreachable model (see no_reserve in the module): needs the
+# allocator_api feature gate in the scratch copy of the crate root. The module is compiled into every jxl-render run, so the gate
+# is attached to every jxl-render row and to the canary.
+_RENDER_ATTRS = ["#![cfg_attr(kani, feature(allocator_api))]"]
 for _o in OBLIGATIONS:
-    if _o["id"].startswith("ib."):
-        _o["tier"] = "thorough"
-        _o["rss_gb"] = 26
+    if _o.get("crate") == "jxl-render":
+        _o["crate_attrs"] = _RENDER_ATTRS
+CANARIES["jxl-render"]["crate_attrs"] = _RENDER_ATTRS
 
+for _o in OBLIGATIONS:
+    if _o["id"].startswith("ib.float_conversion_values"):
+        _o["tier"] = "thorough"  # ~250 s each (symbolic bit depth x float division)
+        _o["timeout"] = 900
